@@ -137,6 +137,31 @@ theorem rotMap_neg (n L x : Int) (hL : 0 < L) (h0 : 0 ≤ x) (h1 : x < L) :
   have : n + -n = 0 * L := by omega
   rw [this, rotMap_mul 0 L x hL h0 h1]
 
+/-- **rotations compose additively on every feature's denotation**: rotating by `a` and then by
+`b` re-locates a location exactly as one rotation by `a + b` maps its residues (guards of both
+steps as in `rotate_den_partial`). -/
+theorem rotate_twice_den_partial (l : Loc) (a b L : Int) (hL : 0 < L) (ha : 0 ≤ a) (hb : 0 ≤ b)
+    (hw : wf l = true) (hnn : nonneg l = true)
+    (hok1 : normOk L (expand l 0 a) = true)
+    (h11 : expandAbs l 0 a = false) (h12 : normalizeAbs (expand l 0 a) L = false)
+    (hnn2 : nonneg (normalize (expand l 0 a) L) = true)
+    (hok2 : normOk L (expand (normalize (expand l 0 a) L) 0 b) = true)
+    (h21 : expandAbs (normalize (expand l 0 a) L) 0 b = false)
+    (h22 : normalizeAbs (expand (normalize (expand l 0 a) L) 0 b) L = false) :
+    den (normalize (expand (normalize (expand l 0 a) L) 0 b) L) ≼ mapPos (rotMap (a + b) L) (den l) := by
+  have s1 := rotate_den_partial l a L hL ha hw hnn hok1 h11 h12
+  have wf1 : wf (normalize (expand l 0 a) L) = true :=
+    (normalize_mod (expand l 0 a) L hL (expand_ins l 0 a hw ha).2 hok1).2
+  have s2 := rotate_den_partial (normalize (expand l 0 a) L) b L hL hb wf1 hnn2 hok2 h21 h22
+  have s3 := mapPos_refines (rotMap b L) s1
+  have e : mapPos (rotMap b L) (mapPos (rotMap a L) (den l)) = mapPos (rotMap (a + b) L) (den l) := by
+    simp only [mapPos, List.map_map]
+    apply List.map_congr_left
+    intro p _
+    simp only [Function.comp, rotMap_add]
+  rw [e] at s3
+  exact s2.trans s3
+
 /-- non-vacuity: a complement-strand join that crosses the new origin -/
 example : wf (compl (joined [ranged 1 3 true false, ranged 6 9 false true])) = true ∧
     nonneg (compl (joined [ranged 1 3 true false, ranged 6 9 false true])) = true ∧
